@@ -8,6 +8,7 @@ CONSTANTS RF1 = {1, 2, 3}
           Outcomes = {"ok", "conflict", "unavailable", "other", "noconn", "notready"}
           Outcomes2 = {"ok", "conflict", "unavailable", "noconn"}
           ReplThresholdIsQuorum = FALSE
+          StaleMapReused = FALSE
           WithTimeout = TRUE
           CaseRF1 = {1, 2, 3, 4}
           CaseRFLocal = {1, 2, 3}
